@@ -50,7 +50,8 @@ META = {
     text='Poison.tla is the call-level state machine of the middleware (handler once; on failure the filter sees that very error; accepted => exactly one publish to '
          'the poison topic with same UUID/payload and original metadata plus the four keys; success reported only after that publish succeeded; otherwise the '
          'error is kept; Ack iff success). TLC checks AckedImpliesHandledOrPoisoned etc. over all input classes; the real middleware is run stand-alone and inside '
-         'a Router over the full case matrix and every trace is validated against the spec',
+         'a Router over the full case matrix and every trace is validated against the spec; part of the cases run on a middleware instance or a message object that has '
+         'been through it before (other handler names, other error texts, a refused poison publish): each call is decided afresh',
     design_ref='DESIGN.md 6/C13',
     note='Outputs returned together with a salvaged error are not constrained (the statement is silent).',
     technique='TLA+ call-level state machine + TLC trace validation over an exhaustive input matrix'),
